@@ -109,11 +109,19 @@ fn get_delta_header_size(
         }
         let cmd = delta[*index];
         *index += 1;
+        let bits = (cmd & !0x80) as usize;
         if i >= usize::BITS as usize {
-            return Err("delta size header too long");
+            // Only zero padding fits beyond the word size
+            if bits != 0 {
+                return Err("delta size header too large");
+            }
+        } else {
+            if (bits << i) >> i != bits {
+                return Err("delta size header too large");
+            }
+            size |= bits << i;
         }
-        size |= ((cmd & !0x80) as usize) << i;
-        i += 7;
+        i = i.saturating_add(7);
         if cmd & 0x80 == 0 {
             return Ok(size);
         }
